@@ -14,6 +14,7 @@ CONSTANTS Freqs, NearFreqs, Res
 ResDefault == Q(1, 1000)       \* the resolution ComplexSolution / DCSolution use (not a parameter there)
 FreqsQuick == {R0, R1, RI(2), Q(1,2)}
 NearNone == {}
+FreqsSmall == {R0, R1}
 NearQuick == {Q(2001, 2000), Q(501, 500)}
 NearAll == {Q(2001, 2000), Q(1999, 2000), Q(501, 500), Q(499, 500), Q(4001, 2000), Q(1001, 500), Q(1, 2000), Q(1, 500)}
 FreqsAll == {R0, R1, RI(2), Q(1,2), RI(10)}
